@@ -109,3 +109,19 @@ def register(c: Contract) -> Contract:
 
 def lookup(key: str) -> Optional[Contract]:
     return REGISTRY.get(key)
+
+
+@spec_fn("has_type")
+def _has_type(ex, st, args):
+    """has_type(expr, 'List[StackToken]'): the value has the shape its annotation in /repo promises (used in `requires`
+    for values reached through fields, whose annotations the engine does not assume by itself in specifications)"""
+    import z3
+
+    from .sym import INTERN, V, parse_hint, vbool
+
+    v, t = args
+    sid = z3.simplify(V.s(t.z))
+    name = next((k for k, i in INTERN.strings.items() if z3.is_int_value(sid) and i == sid.as_long()), None)
+    if name is None:
+        raise ValueError("has_type needs a literal type name")
+    return vbool(ex.type_formula(st, v.z, parse_hint(name)))
